@@ -164,6 +164,7 @@ def grammar_facts() -> Dict[str, Any]:
     inline = sorted({a for a, _ in prods if a.startswith("_")})
     kept = sorted(kept_names)
     ignore = sorted(p.lexer_conf.ignore if hasattr(p, "lexer_conf") else p.ignore_tokens)
+    ignore_pat = [(n, tn[n].pattern.to_regexp()) for n in ignore]
     prio = sorted((t.name if t.name in kept_names or t.name in ignore else tsrc_any(t.name), t.priority) for t in p.terminals)
     # string terminals the IDENT regex matches as a whole (lark's "unless" mechanism retypes these)
     ident = tn.get("IDENT")
@@ -185,7 +186,7 @@ def grammar_facts() -> Dict[str, Any]:
         if "IDENT" in acc:
             sets.add(tuple(sorted(tsrc_any(a) for a in acc)))
     conflicts = [m for m in log if "conflict" in m.lower()]
-    return {"opts": opts, "prods": prods, "inline": inline, "kept": kept, "ignore": ignore, "prio": prio,
+    return {"opts": opts, "prods": prods, "inline": inline, "kept": kept, "ignore": ignore, "ignore_pat": ignore_pat, "prio": prio,
             "words": words, "accept": sorted(sets), "conflicts": conflicts, "lexer": str(p.options.lexer),
             "start": list(p.options.start)}
 
@@ -207,6 +208,8 @@ def gen_grammar() -> str:
     out.append("/-- helper rules lark inlines into their parent -/")
     out.append("def inlineRules : List String := " + lean_list([lean_str(s) for s in f["inline"]]))
     out.append("def ignored : List String := " + lean_list([lean_str(s) for s in f["ignore"]]))
+    out.append("/-- the regular expressions of the ignored terminals -/")
+    out.append("def ignoredPatterns : List (String × String) := " + lean_list([f"({lean_str(a)}, {lean_str(b)})" for a, b in f["ignore_pat"]]))
     out.append("def terminalPriorities : List (String × Int) := " + lean_list([f"({lean_str(n)}, {pr})" for n, pr in f["prio"]]))
     out.append("/-- string terminals matched as a whole by the IDENT regex -/")
     out.append("def wordStrTerminals : List (String × String) := " + lean_list([f"({lean_str(a)}, {lean_str(b)})" for a, b in f["words"]]))
